@@ -453,4 +453,36 @@ def run(ctx):
     field_e_rule(ctx)
     reaction_rule(ctx)
     node_values_rule(ctx)
+    node_to_element_rule(ctx)
     energy_rule(ctx)
+
+
+def node_to_element_rule(ctx):
+    """R16.9: nodal -> element conversion of a result is, element by element, the mean of the values at that element's own
+    nodes - on meshes mixing element groups with different node counts too (constants are preserved)."""
+    repo = ctx.repo
+    r = ctx.rule("R16.9", "node -> element conversion: values_e[e] = mean of the nodal values over the nodes of element e, groups in Get_list_groupElem order, for groups with different node counts", min_instances=1)
+    simu = repo.cls(f"{SIM}._simu._Simu")
+    f = simu.methods["Results_Reshape_values"]
+    r.instance(fn=f.qualname)
+    quad = SimpleNamespace(nPe=4, connect=XArray((1, 4), [0, 1, 2, 3]))
+    tri = SimpleNamespace(nPe=3, connect=XArray((2, 3), [1, 4, 2, 2, 4, 3]))
+    conn = [[0, 1, 2, 3], [1, 4, 2], [2, 4, 3]]
+    Nn, Ne = 5, 3
+    cne = XArray((Nn, Ne), [Q(1) if n in conn[e] else Q(0) for n in range(Nn) for e in range(Ne)])
+    mesh = SimpleNamespace(Nn=Nn, Ne=Ne, dim=2, Get_list_groupElem=lambda d=None: [quad, tri], Get_connect_n_e=lambda: cne, groupElem=quad)
+    v = [Poly.var(f"v{n}") for n in range(Nn)]
+    I = Interp(repo)
+    out = XArray.from_nested(I.call_function(f, [XArray((Nn,), list(v)), False], self_obj=XObj(simu, dict(mesh=mesh)))).ravel()
+    bad = None
+    if out.size != Ne:
+        bad = f"{out.size} element values for {Ne} elements"
+    else:
+        for e in range(Ne):
+            want = sum((v[n] for n in conn[e]), Poly()) / len(conn[e])
+            if not is_zero(out.data[e] - want):
+                bad = f"element {e} ({len(conn[e])} nodes): {out.data[e]!r}, expected {want!r}"
+    if bad:
+        r.fail(f.qualname, "node-to-element", f.file, f.lineno, "_Simu.Results_Reshape_values", f"QUAD4 + TRI3 mesh: {bad}: a constant nodal field is not preserved on the elements of the second group")
+    else:
+        r.ok("values_e = per-element mean over each group's own connectivity (QUAD4 + TRI3)")
